@@ -49,7 +49,7 @@ def variance(EpsE, x):
     return fs._sum([fs._sum([EpsE[i][j] for i in range(m)]) * x[j] * x[j] for j in range(n)])
 
 
-def minimize_case(M, m, n, rows, batch, kkind, bkind, epskind, l1kind, via="function", lbkind="pos"):
+def minimize_case(M, m, n, rows, batch, kkind, bkind, epskind, l1kind, via="function", lbkind="pos", far=False):
     from dreye.api.optimize.lsq_linear import lsq_linear_minimize
     A, K, base, lb, ub, lbl, ubl = fs.mk_system(M, m, n, kkind, bkind, lbkind, "fin")
     def _b_sample(r, s):
@@ -60,7 +60,10 @@ def minimize_case(M, m, n, rows, batch, kkind, bkind, epskind, l1kind, via="func
             xt[:] = xt[0]  # one common total intensity request must be attainable for every row
         M.values["_xt"] = xt
         Ae, be = fs.effective_model(v["A"], v.get("K"), v.get("base"), kkind)
-        noise = r.uniform(0.9, 1.3, size=(rows, m)) if l1kind == "none" else 1.0  # with an L1 request keep the generating intensities feasible
+        noise = r.uniform(0.9, 1.3, size=(rows, m)) if l1kind == "none" else 1.0
+        if far and l1kind == "none":
+            # far out-of-gamut targets: the weighted and the unweighted best fits differ visibly (sampled inputs of the concrete modes only)
+            noise = r.choice([0.35, 0.6, 1.8, 2.6], size=(rows, m))  # with an L1 request keep the generating intensities feasible
         return np.array([fs.predict(Ae, be, list(xt[i])) for i in range(rows)], dtype=float) * noise
     B = M.real("B", (rows, m), sample=_b_sample)
     W = M.real("W", (rows, m), sample=lambda r, s: r.uniform(0.5, 2.0, size=s))
@@ -197,6 +200,11 @@ def cases(tier, seed):
                 add(f"2x3 K={kkind} Eps={epskind} L1={l1kind} rows=1", m=2, n=3, rows=1, batch=1, kkind=kkind, bkind="vec", epskind=epskind, l1kind=l1kind)
     add("2x2 K=vec Eps=explicit L1=vec rows=2", m=2, n=2, rows=2, batch=1, kkind="vec", bkind="vec", epskind="explicit", l1kind="vec")
     add("2x2 K=scalar base=scalar Eps=explicit rows=2", m=2, n=2, rows=2, batch=1, kkind="scalar", bkind="scalar", epskind="explicit", l1kind="none")
+    add("2x2 K=vec Eps=explicit rows=2 (sampled targets far outside the gamut)", m=2, n=2, rows=2, batch=1, kkind="vec", bkind="vec", epskind="explicit", l1kind="none", far=True)
+    add("3x3 K=none Eps=hetero rows=1 (sampled targets far outside the gamut)", m=3, n=3, rows=1, batch=1, kkind="none", bkind="vec", epskind="hetero", l1kind="none", far=True)
+    C[-1]["opts"]["n_validate"] = 3; C[-2]["opts"]["n_validate"] = 3
+    # one stacked problem for two samples (the per-sample error constraints are rows of a reshaped residual); the batch grid itself is C05's subject
+    add("2x2 K=vec Eps=explicit rows=2 batch=2", m=2, n=2, rows=2, batch=2, kkind="vec", bkind="vec", epskind="explicit", l1kind="none")
     add("estimator.minimize_variance 2x3 K=vec Eps=explicit", m=2, n=3, rows=1, batch=1, kkind="vec", bkind="vec", epskind="explicit", l1kind="none", via="estimator")
     add("estimator.minimize_variance 2x3 K=mat Eps=default", m=2, n=3, rows=1, batch=1, kkind="mat", bkind="vec", epskind="default", l1kind="none", via="estimator")
     if big:
